@@ -19,7 +19,7 @@ TargetKinds == {"local", "aux1", "aux2", "aux3", "trans", "selfrec", "mutual", "
 Shapes      == {"prim", "object", "arrayref", "tuple", "allof", "map", "nested", "ptrarray", "ref"}
 HolderKinds == {"prop", "items", "tuple", "addprops", "additems", "allof", "alias", "opbody", "pathbody",
                 "code", "default", "sharedparam", "sharedresp", "nested", "opnested", "opitems",
-                "auxresp", "auxparam", "auxpathitem", "unusedparam", "unusedresp"}
+                "auxresp", "auxparam", "auxpathitem", "unusedparam", "unusedresp", "casesiblings"}
 AuxHolders  == {"auxresp", "auxparam", "auxpathitem"}
 SecondKinds == {"none", "code", "prop2", "same"}
 Collisions  == {"none", "exact", "case", "twoimports"}
@@ -123,6 +123,8 @@ Holder(h, REF) ==
     [] h = "allof"    -> inDef(Mk(<<>>, [allOf |-> ListOf(<<REF, ObjP([N_10 |-> Str])>>)]))
     [] h = "alias"    -> inDef(REF)
     [] h = "nested"   -> inDef(ObjP([N_9 |-> ObjP([N_11 |-> REF, N_10 |-> Int])]))
+    \* two inline complex schemas at the same depth whose property names differ by letter case only (C_9 is the case variant of N_9)
+    [] h = "casesiblings" -> inDef(ObjP([N_9 |-> ObjP([N_11 |-> REF]), C_9 |-> ObjP([N_10 |-> Str])]))
     [] h = "opbody"   -> inOp(PathItemWith([post |-> Op([parameters |-> ListOf(<<BodyParam(REF)>>), responses |-> OkResponses])]))
     [] h = "pathbody" -> inOp(PathItemWith([parameters |-> ListOf(<<BodyParam(REF)>>), put |-> Op([responses |-> OkResponses])]))
     [] h = "code"     -> inOp(PathItemWith([get |-> Op([responses |-> Mk(<<>>, ("200" :> Resp([schema |-> REF])))])]))
